@@ -863,10 +863,14 @@ where
 
         match inp.memos.entry(key) {
             hashbrown::hash_map::Entry::Occupied(o) => {
-                if let Some(err) = o.get() {
-                    // Replay the failure where it originally happened, not where the parser started
-                    let err = err.clone();
-                    inp.add_alt_err(&err.pos, err.err);
+                if let Some((err, emitted)) = o.get() {
+                    let (err, emitted) = (err.clone(), emitted.clone());
+                    // Replay what the failed attempt left behind: the non-fatal errors it had emitted...
+                    inp.errors.secondary.extend(emitted);
+                    // ... and its failure, where it originally happened (not where the parser started)
+                    if let Some(err) = err {
+                        inp.add_alt_err(&err.pos, err.err);
+                    }
                 } else {
                     let err_span = inp.span_since(&before);
                     // TODO: Is this an appropriate way to handle infinite recursion?
@@ -882,12 +886,14 @@ where
         // Shelter the alt of earlier alternatives so that the memo entry holds this parser's own failure only, and so
         // that it is not lost: it is put back (with this parser's alt applied on top of it) whatever the outcome
         let old_alt = inp.errors.alt.take();
+        let emitted_before = inp.errors.secondary.len();
 
         let res = self.parser.go::<M>(inp);
 
         let new_alt = inp.take_alt();
         if res.is_err() {
-            inp.memos.insert(key, new_alt.clone());
+            let emitted = inp.errors.secondary[emitted_before..].to_vec();
+            inp.memos.insert(key, Some((new_alt.clone(), emitted)));
         } else {
             inp.memos.remove(&key);
         }
